@@ -90,7 +90,17 @@ def run(R):
         report(R, viol, cases)
         mid = cases[len(cases) // 2]
         R.samples = [{"history": c["name"], "steps": len(c["steps"]), "first_ops": [s["kind"] + ":" + s["status"] for s in c["steps"][14:26]]} for c in (cases[0], mid, cases[-1])]
+        agg = {}
+        for c in cases:
+            for k, v in (c.get("ops") or {}).items():
+                agg.setdefault(k.rsplit(":", 1)[0], [0, 0, 0])
+                agg[k.rsplit(":", 1)[0]][0 if k.endswith(":ok") else 1] += v
+        for c in cases:
+            for kind in {k.rsplit(":", 1)[0] for k in (c.get("ops") or {})}:
+                agg[kind][2] += 1
         R.coverage.update({"traces_validated_against_impl": total, "steps_observed": total_steps,
+                           "operations_by_kind": {k: {"ok": v[0], "failed": v[1], "histories_exercising": v[2]} for k, v in sorted(agg.items())},
+                           "per_history_operations": {c["name"]: c.get("ops") for c in cases},
                            "input_distribution": json.load(open(os.path.join(out, "dist.json")))})
     # a broken proof / translator / correspondence: widen the search for a concrete failing input
     if R.broken:
